@@ -359,7 +359,7 @@ func (mgr *GCMgr) gc(bkt *Bucket, startChunkID, endChunkID int, merge bool) {
 			}
 
 			verifhook.Point("gc.rec.repointed", bkt.ID, ki.StringKey, oldPos, newPos)
-			rotated := bkt.hints.set(ki, &meta, newPos, recsize, "gc")
+			rotated := bkt.hints.setGC(ki, &meta, oldPos, newPos, recsize)
 			verifhook.Point("gc.rec.hinted", bkt.ID, ki.StringKey, oldPos, newPos)
 			if rotated {
 				bkt.hints.trydump(gc.Dst, false)
